@@ -6,6 +6,10 @@ import yv
 VARS = {"ia": "i", "ba": "b", "sa": "s", "fa": "f"}
 DOM = {"i": [0, 1, 7], "b": [True, False], "s": ["", "a", "ab"], "f": [0, 2, 8]}     # floats in quarters
 RET = {0: 0, 29: 29, 48: 48, 56: 56}
+# the identifiers the implementation sees: each a prefix of the next, the unknown ones ("zz" in the model, "nope" in the random
+# histories) a prefix of all / an extension of one (identifiers are compared as whole strings, at every level)
+NAME = {"ia": "lim", "ba": "limit", "sa": "limit_hi", "fa": "l", "zz": "li", "nope": "limit_"}
+def nm(i): return NAME.get(i, i)
 
 
 def lit(ty, v):
@@ -19,10 +23,12 @@ def observer_rules():
     out = []
     for name, ty in VARS.items():
         if ty == "b":
-            out.append("rule %s_T { condition: %s }" % (name, name))
+            out.append("rule %s_T { condition: %s }" % (name, nm(name)))
         else:
             for k, v in enumerate(DOM[ty]):
-                out.append("rule %s_%d { condition: %s == %s }" % (name, k, name, lit(ty, v)))
+                out.append("rule %s_%d { condition: %s == %s }" % (name, k, nm(name), lit(ty, v)))
+            if ty == "i":      # the same value used as an `of` quantifier over strings that never match: holds exactly for 0
+                out.append('rule %s_Q { strings: $q1 = "never-in-the-data-1" $q2 = "never-in-the-data-2" condition: %s of them }' % (name, nm(name)))
     return "\n".join(out)
 
 
@@ -42,10 +48,10 @@ def history(r, nops):
     r.shuffle(order)
     for name, ty in order:
         v = r.choice(DOM[ty])
-        lines.append("cdefine 0 %s %s %s" % (ty, name, val_arg(ty, v))); evs.append({"e": "CDefine", "id": name, "ty": ty, "v": v})
+        lines.append("cdefine 0 %s %s %s" % (ty, nm(name), val_arg(ty, v))); evs.append({"e": "CDefine", "id": name, "ty": ty, "v": v})
         if r.random() < 0.3:
             ty2 = r.choice("ibsf"); v2 = r.choice(DOM[ty2])
-            lines.append("cdefine 0 %s %s %s" % (ty2, name, val_arg(ty2, v2))); evs.append({"e": "CDefine", "id": name, "ty": ty2, "v": v2})
+            lines.append("cdefine 0 %s %s %s" % (ty2, nm(name), val_arg(ty2, v2))); evs.append({"e": "CDefine", "id": name, "ty": ty2, "v": v2})
     lines.append("add 0 - " + yv.hx(observer_rules().encode()))
     lines.append("getrules 0 0"); evs.append({"e": "GetRules"})
     lines.append("cdestroy 0")
@@ -56,7 +62,7 @@ def history(r, nops):
         ty = r.choice("ibsf") if r.random() < 0.35 else VARS.get(name, "i")
         v = r.choice(DOM[ty])
         if c < 0.25:
-            lines.append("rdefine 0 %s %s %s" % (ty, name, val_arg(ty, v))); evs.append({"e": "RDefine", "id": name, "ty": ty, "v": v})
+            lines.append("rdefine 0 %s %s %s" % (ty, nm(name), val_arg(ty, v))); evs.append({"e": "RDefine", "id": name, "ty": ty, "v": v})
         elif c < 0.4 and len(alive) < 3:
             s = min(set([1, 2, 3]) - alive); alive.add(s)
             lines.append("scanner %d 0" % s); evs.append({"e": "ScannerCreate", "s": s})
@@ -64,7 +70,7 @@ def history(r, nops):
             s = r.choice(sorted(alive))
             if ty in "ib" and VARS.get(name) in ("i", "b") and VARS.get(name) != ty:
                 v = r.choice([0, 1]) if ty == "i" else v      # int <-> bool at scanner level: keep to 0/1
-            lines.append("sdefine %d %s %s %s" % (s, ty, name, val_arg(ty, v))); evs.append({"e": "SDefine", "s": s, "id": name, "ty": ty, "v": v})
+            lines.append("sdefine %d %s %s %s" % (s, ty, nm(name), val_arg(ty, v))); evs.append({"e": "SDefine", "s": s, "id": name, "ty": ty, "v": v})
         elif c < 0.92 and alive:
             s = r.choice(sorted(alive))
             lines.append("data 1 78"); lines.append("scan %d 1 mem - - -" % s); evs.append({"e": "Scan", "s": s})
@@ -86,6 +92,8 @@ def observed_vals(matching):
         else:
             hits = [k for k in range(len(DOM[ty])) if "%s_%d" % (name, k) in matching]
             vals[name] = DOM[ty][hits[0]] if len(hits) == 1 else "ambiguous:%s" % hits
+            if ty == "i" and len(hits) == 1 and ((name + "_Q") in matching) != (vals[name] == 0):
+                vals[name] = -999      # as an `of` quantifier the variable does not behave like its value: no value of the model's domain
     return vals
 
 
@@ -95,10 +103,12 @@ def observer_rules_for(ids):
     for name in sorted(ids):
         ty = VARS[name]
         if ty == "b":
-            out.append("rule %s_T { condition: %s }" % (name, name))
+            out.append("rule %s_T { condition: %s }" % (name, nm(name)))
         else:
             for k, v in enumerate(DOM[ty]):
-                out.append("rule %s_%d { condition: %s == %s }" % (name, k, name, lit(ty, v)))
+                out.append("rule %s_%d { condition: %s == %s }" % (name, k, nm(name), lit(ty, v)))
+            if ty == "i":      # the same value used as an `of` quantifier over strings that never match: holds exactly for 0
+                out.append('rule %s_Q { strings: $q1 = "never-in-the-data-1" $q2 = "never-in-the-data-2" condition: %s of them }' % (name, nm(name)))
     return "\n".join(out)
 
 
@@ -109,12 +119,12 @@ def fn(x):
 
 def act_lines(a, cenv_ids):
     op = a["op"]
-    if op == "CDefine": return ["cdefine 0 %s %s %s" % (a["ty"], a["id"], val_arg(a["ty"], a["v"]))]
+    if op == "CDefine": return ["cdefine 0 %s %s %s" % (a["ty"], nm(a["id"]), val_arg(a["ty"], a["v"]))]
     if op == "GetRules": return ["add 0 - " + yv.hx(observer_rules_for(cenv_ids).encode()), "getrules 0 0", "cdestroy 0"]
-    if op == "RDefine": return ["rdefine 0 %s %s %s" % (a["ty"], a["id"], val_arg(a["ty"], a["v"]))]
+    if op == "RDefine": return ["rdefine 0 %s %s %s" % (a["ty"], nm(a["id"]), val_arg(a["ty"], a["v"]))]
     if op == "ScannerCreate": return ["scanner %d 0" % a["s"]]
     if op == "ScannerDestroy": return ["sdestroy %d" % a["s"]]
-    if op == "SDefine": return ["sdefine %d %s %s %s" % (a["s"], a["ty"], a["id"], val_arg(a["ty"], a["v"]))]
+    if op == "SDefine": return ["sdefine %d %s %s %s" % (a["s"], a["ty"], nm(a["id"]), val_arg(a["ty"], a["v"]))]
     raise ValueError(op)
 
 
